@@ -10,6 +10,7 @@ import (
 	"os"
 	"regexp"
 	"strings"
+	"sync"
 	"time"
 
 	"github.com/pgavlin/dawn/diff"
@@ -36,21 +37,21 @@ import (
 // target() builtin's composition of a target from its arguments (replicated in vLoadProject).
 
 var vStubTable = map[string]string{
-	"os.Open":                "vOpen",
-	"os.Stat":                "vStat",
-	"os.IsNotExist":          "vIsNotExist",
-	"os.MkdirAll":            "vMkdirAll",
-	"os.CreateTemp":          "vCreateTemp",
-	"os.Create":              "vCreate",
-	"(*regexp.Regexp).MatchString": "vIgnoreMatch",
-	"os.Rename":              "vRename",
-	"os.RemoveAll":           "vRemoveAll",
-	"(*os.File).Stat":        "vFileStat",
-	"(*os.File).ReadDir":     "vFileReadDir",
-	"(*os.File).Name":        "vFileName",
-	"(*os.File).Close":       "vFileClose",
-	"path/filepath.WalkDir":  "vWalkDir",
-	"crypto/sha256.New":      "vSHANew",
+	"os.Open":                                          "vOpen",
+	"os.Stat":                                          "vStat",
+	"os.IsNotExist":                                    "vIsNotExist",
+	"os.MkdirAll":                                      "vMkdirAll",
+	"os.CreateTemp":                                    "vCreateTemp",
+	"os.Create":                                        "vCreate",
+	"(*regexp.Regexp).MatchString":                     "vIgnoreMatch",
+	"os.Rename":                                        "vRename",
+	"os.RemoveAll":                                     "vRemoveAll",
+	"(*os.File).Stat":                                  "vFileStat",
+	"(*os.File).ReadDir":                               "vFileReadDir",
+	"(*os.File).Name":                                  "vFileName",
+	"(*os.File).Close":                                 "vFileClose",
+	"path/filepath.WalkDir":                            "vWalkDir",
+	"crypto/sha256.New":                                "vSHANew",
 	"encoding/hex.EncodeToString":                      "vHexEncode",
 	"github.com/pgavlin/dawn/util.SHA256":              "vSHA256",
 	"encoding/json.NewEncoder":                         "vJSONNewEncoder",
@@ -133,9 +134,17 @@ func vPut(p string, n *vNode) {
 	vFS[p] = n
 }
 
-func vWriteFile(p, content string) { vPut(p, &vNode{content: content}) }
+func vWriteFile(p, content string) {
+	vPut(p, &vNode{content: content})
+	if vNative() {
+		vRealWrite(p, content)
+	}
+}
 
 func vRemove(p string) {
+	if vNative() {
+		vRealRemove(p)
+	}
 	for q := range vFS {
 		if q == p || strings.HasPrefix(q, p+"/") {
 			delete(vFS, q)
@@ -349,10 +358,10 @@ func vWalkDir(root string, fn fs.WalkDirFunc) error {
 type vHashT struct{ buf []byte }
 
 func (h *vHashT) Write(p []byte) (int, error) { h.buf = append(h.buf, p...); return len(p), nil }
-func (h *vHashT) Sum(b []byte) []byte          { return append(b, h.buf...) }
-func (h *vHashT) Reset()                       { h.buf = nil }
-func (h *vHashT) Size() int                    { return 32 }
-func (h *vHashT) BlockSize() int               { return 64 }
+func (h *vHashT) Sum(b []byte) []byte         { return append(b, h.buf...) }
+func (h *vHashT) Reset()                      { h.buf = nil }
+func (h *vHashT) Size() int                   { return 32 }
+func (h *vHashT) BlockSize() int              { return 64 }
 
 func vSHANew() hash.Hash { return &vHashT{} }
 
@@ -458,7 +467,10 @@ func vEnvValue(tok string) starlark.Value {
 	return d
 }
 
-func vFunctionEnv(f starlark.Callable) (starlark.Value, error) { return vEnvValue(vEnvTok[f.Name()]), nil }
+func vFunctionEnv(f starlark.Callable) (starlark.Value, error) {
+	return vEnvValue(vEnvTok[f.Name()]), nil
+}
+
 // vNewThread: the thread a body runs on; the kernel remembers whose body it is so that the body can
 // write to the target's output (a real lineWriter, as util.SetStdio would wire it up)
 var vCurF *function
@@ -471,13 +483,16 @@ func (w vWriter) Write(b []byte) (int, error) { return w.w.Write(b) }
 func (w vWriter) Close() error                { return nil }
 
 func vB64Enc(enc *base64.Encoding, w io.Writer) io.WriteCloser { return vWriter{w} }
-func vB64Dec(enc *base64.Encoding, r io.Reader) io.Reader       { return r }
+func vB64Dec(enc *base64.Encoding, r io.Reader) io.Reader      { return r }
 
 var vLastW io.Writer
 var vLastR io.Reader
 
-func vNewEncoder(w io.Writer, p pickle.Pickler) *pickle.Encoder   { vLastW = w; return &pickle.Encoder{} }
-func vNewDecoder(r io.Reader, u pickle.Unpickler) *pickle.Decoder { vLastR = r; return &pickle.Decoder{} }
+func vNewEncoder(w io.Writer, p pickle.Pickler) *pickle.Encoder { vLastW = w; return &pickle.Encoder{} }
+func vNewDecoder(r io.Reader, u pickle.Unpickler) *pickle.Decoder {
+	vLastR = r
+	return &pickle.Decoder{}
+}
 
 func vPickleEncode(e *pickle.Encoder, x starlark.Value) error {
 	_, err := vLastW.Write([]byte("E" + vEnvTok[x.(*vBody).name]))
@@ -613,7 +628,14 @@ type vEv struct{ label, kind string }
 
 var vEvents []vEv
 
-func vEvent(lbl, kind string) { vEvents = append(vEvents, vEv{lbl, kind}) }
+// (natively the parallel runner delivers events from several goroutines)
+var vEvMu sync.Mutex
+
+func vEvent(lbl, kind string) {
+	vEvMu.Lock()
+	vEvents = append(vEvents, vEv{lbl, kind})
+	vEvMu.Unlock()
+}
 
 type vRecorder struct{ discardEventsT }
 
@@ -706,6 +728,9 @@ func vLabelOf(s *vTargetSpec) string { return s.pkg + ":" + s.name }
 
 // vLoadProject: a fresh process loading the project (new Project; function.load re-reads the records).
 func vLoadProject() (*Project, error) {
+	if vNative() {
+		return vLoadNative(false)
+	}
 	vMkdirs(vTemp)
 	proj := vNewProject()
 	for i := range vShape {
@@ -769,6 +794,9 @@ func vNewProject() *Project {
 
 // vLoadForGC: what `dawn gc` loads — the index if it is there and decodes, a full load otherwise.
 func vLoadForGC() (*Project, error) {
+	if vNative() {
+		return vLoadNative(vIndexMode)
+	}
 	if vIndexMode {
 		proj := vNewProject()
 		if err := proj.loadIndex(); err == nil {
@@ -784,6 +812,10 @@ func vBuild(target string, opts *RunOptions) (loadErr, buildErr error, crashed b
 	vRan, vEvaluated, vCompleted, vEvents = nil, nil, nil, nil
 	vPending = map[string]vPendingExec{}
 	vDry = opts != nil && opts.DryRun
+	if vNative() {
+		vPreBuildNative()
+		defer vPostBuildNative()
+	}
 	crashed = vCatchCrash(func() {
 		// a fresh process per build (the CLI, watch mode) unless the history keeps one loaded
 		// project for several runs (the REPL's run())
@@ -824,6 +856,7 @@ func vDepsOf(s *vTargetSpec) []string {
 	}
 	return s.deps
 }
+
 var vKept *Project
 var vKeepProject bool
 
